@@ -5,7 +5,7 @@ the functions of the reference tree (engine/ref_symbols.json); a function that
 
   * does not exist in the reference tree (after the rename normalisation of symbols.py),
   * is a plain fn / method (no closure, no coroutine), not recursive, of bounded size, and
-  * is called from exactly ONE function family (a function and the closures nested in it),
+  * is called from at most MAX_SITES places (code that was duplicated and is now one helper is called from each place it was in),
 
 is spliced into its call sites before any rule runs: parameters become assignments of the arguments, `return` becomes an assignment of
 the return place to the call's destination followed by a jump to the call's successor.  The rules then see the code where it was before
@@ -16,6 +16,7 @@ import copy
 
 MAX_BLOCKS = 260
 MAX_ROUNDS = 3
+MAX_SITES = 6        # a helper extracted from duplicated code is called from each of the places the code was in
 
 
 def _family(bid, bodies):
@@ -149,8 +150,8 @@ def inline_new_helpers(parsed, ref):
             if any(bl['t']['k'] in ('yield', 'coroutinedrop') for bl in h['blocks']):
                 continue
             fams = {_family(c, bodies) for c, _ in ss}
-            if len(fams) != 1 or _family(hid, bodies) in fams:
-                continue          # several users (a real shared function), or recursion
+            if len(ss) > MAX_SITES or _family(hid, bodies) in fams:
+                continue          # many users (a real shared function), or recursion
             if new_cmds and h.get('public'):
                 continue          # API of a new command (see above)
             # the helper must not call itself
@@ -160,7 +161,6 @@ def inline_new_helpers(parsed, ref):
             for cid, bi in sorted(ss, key=lambda x: (x[0], -x[1])):
                 _splice(bodies[cid], bi, h)
             # closures created inside the helper now belong to the caller's family
-            fam = next(iter(fams))
             for b in bodies.values():
                 if b.get('parent') == hid:
                     b['parent'] = ss[0][0]
